@@ -84,6 +84,10 @@ type ExecDbl struct {
 
 	// Latency is slept (virtual time inside a synctest bubble) inside ExecuteTxs.
 	Latency time.Duration
+	// FinalLatency stalls SetFinal (a slow execution client); it gives up when its caller's context ends.
+	FinalLatency time.Duration
+	// OnFinalEnter, when set, is called when SetFinal is entered (before the latency).
+	OnFinalEnter func(height uint64)
 	// GetTxsLatency stalls GetTxs (an execution client that is slow to answer); like a real client
 	// it gives up when the context it was called with ends.
 	GetTxsLatency time.Duration
@@ -193,6 +197,16 @@ func (e *ExecDbl) ExecuteTxs(ctx context.Context, txs [][]byte, blockHeight uint
 func (e *ExecDbl) SetFinal(ctx context.Context, blockHeight uint64) error {
 	if e.dead != nil && e.dead() {
 		return ErrDead
+	}
+	if e.OnFinalEnter != nil {
+		e.OnFinalEnter(blockHeight)
+	}
+	if e.FinalLatency > 0 {
+		select {
+		case <-ctx.Done():
+			return ctx.Err()
+		case <-time.After(e.FinalLatency):
+		}
 	}
 	var seen uint64
 	if e.Sampler != nil {
